@@ -48,6 +48,14 @@ pub fn main(o: &Opts) -> i32 {
             match cmd {
                 "node_count" => json!(db.node_count()),
                 "edge_count" => json!(db.edge_count()),
+                "index" => { db.create_property_index(rest); json!("ok") }
+                "dropindex" => json!(db.drop_property_index(rest)),
+                "setp" => {
+                    // db setp <node id> <key> <int>
+                    let a: Vec<&str> = rest.split_whitespace().collect();
+                    db.set_node_property(grafeo_common::types::NodeId::new(a[0].parse().unwrap()), a[1], grafeo_common::types::Value::Int64(a[2].parse().unwrap()));
+                    json!("ok")
+                }
                 _ => json!("?"),
             }
         } else {
